@@ -583,6 +583,13 @@ class EnforcedForest:
             ) and (edge.get("geometry") == kwargs.get("geometry")):
                 return False
 
+        # if this node is being moved to a new parent the edge
+        # from the previous parent no longer exists
+        previous = self.parents.get(v)
+        if previous is not None and previous != u:
+            self.edge_data.pop((previous, v), None)
+            self._cache = {}
+
         # store a parent reference for traversal
         self.parents[v] = u
         # store kwargs for edge data keyed with tuple
